@@ -3018,7 +3018,9 @@ func (b *IPRouteBody) decodeFromBytes(data []byte, version uint8, software Softw
 	}
 
 	b.backupNexthops = []Nexthop{} // backupNexthops is added in frr7.4
-	if b.Message&messageBackupNexthops.ToEach(version, software) > 0 {
+	// before frr7.4 the same bit is MESSAGE_LABEL (same condition as serialize)
+	if version == 6 && software.name == "frr" && software.version >= 7.4 &&
+		b.Message&messageBackupNexthops.ToEach(version, software) > 0 {
 		if rest < pos {
 			return errors.New("IPRouteBody backupnexthops data length is too short")
 		}
